@@ -134,6 +134,19 @@ def as_symseq(it, sorted_=False):
 # --------------------------------------------------------------------------- loops
 
 
+class Poison:
+    """A value that must not be used (unknown local after a loop cut)."""
+
+    def __init__(self, what):
+        object.__setattr__(self, "_what", what)
+
+    def _boom(self, *a, **k):
+        raise Unsupported("use of " + object.__getattribute__(self, "_what"))
+
+    __getattr__ = __call__ = __bool__ = __eq__ = __ne__ = __iter__ = __getitem__ = __add__ = __radd__ = _boom
+    __hash__ = None
+
+
 class LoopSpec:
     def __init__(self, invariant=None, locals=None, facts=None, modifies=None, decreases=None,
                  keep=(), exit_facts=None, havoc=()):
@@ -208,8 +221,11 @@ class _LoopBase:
         if sp is None:
             sp = ty.spec_of_value(value)
         if sp is None:
-            if value is None or callable(value) or isinstance(value, (type, enum.Enum)):
-                # e.g. a flag set to None before the loop: its type is not known
+            if value is None:
+                # a local that is None before the loop and assigned inside it: its value after an unknown
+                # number of iterations is unknown; any use before it is assigned again is outside the subset
+                return Poison(f"local {name!r} after loop {self.k} (declare its type in the loop contract)")
+            if callable(value) or isinstance(value, (type, enum.Enum)):
                 raise Unsupported(f"loop {self.k}: cannot havoc local {name!r} = {value!r}; "
                                   "declare its type in the loop contract")
             raise Unsupported(f"loop {self.k}: cannot havoc local {name!r} of type {type(value).__name__}; "
@@ -304,6 +320,7 @@ class ForLoop(_LoopBase):
             it = c.fresh(f"loop{self.k}.i", INT)
             c.pc.append(tm.And(tm.Le(tm.mk_int(0), it), tm.Lt(it, self.n)))
             self.i = it
+            self.head_index = len(c.trace)
             self.current = self.seq.elem(it)
             c.data.setdefault("loops", {})[self.k] = self
             yield self.current
@@ -364,6 +381,13 @@ class WhileLoop(_LoopBase):
 
 
 # --------------------------------------------------------------------------- __vc__
+
+
+class StarArgs:
+    """All elements of a symbolic collection, passed with `*`."""
+
+    def __init__(self, collection):
+        self.collection = collection
 
 
 class AsyncCtx:
@@ -634,6 +658,13 @@ class RT:
             self.yield_(v)
         return None
 
+    def star(self, x):
+        """`*x` in a call: a symbolic collection is passed as one StarArgs marker."""
+        x = sym.resolve(x)
+        if as_symseq(x) is not None or isinstance(x, (SymMap, SymSet, SymSeq)):
+            return [StarArgs(x)]
+        return x
+
     # async
     def await_(self, x):
         c = cur()
@@ -849,6 +880,11 @@ def v_isinstance(obj, cls):
     clss = cls if isinstance(cls, tuple) else (cls,)
     if isinstance(obj, ty.Other.Thing):
         return False
+    if hasattr(builtins.type(obj), "__syminstance__"):
+        rs = [obj.__syminstance__(builtins.getattr(k, "__vc_real__", k)) for k in clss]
+        if builtins.all(isinstance(r, bool) for r in rs):
+            return builtins.any(rs)
+        return wrap_bool(tm.Or(*[B(r) for r in rs]))
     if isinstance(obj, SymObj):
         for k in clss:
             k = getattr(k, "__vc_real__", k)
@@ -1007,6 +1043,41 @@ def v_print(*a, **k):
     return None
 
 
+_MISSING = object()
+
+
+def v_getattr(obj, name, default=_MISSING):
+    obj = sym.resolve(obj)
+    if hasattr(type(obj), "__symgetattr__"):
+        return obj.__symgetattr__(name, default, _MISSING)
+    if is_symbolic(name):
+        raise Unsupported("getattr with a symbolic name on a concrete object")
+    if default is _MISSING:
+        return builtins.getattr(obj, name)
+    return builtins.getattr(obj, name, default)
+
+
+def v_type(obj, *a):
+    if a:
+        return builtins.type(obj, *a)
+    if hasattr(builtins.type(obj), "__symtype__"):
+        return obj.__symtype__()
+    if isinstance(obj, SymObj):
+        return obj.__class__
+    return builtins.type(obj)
+
+
+def v_issubclass(cls, classinfo):
+    if hasattr(builtins.type(cls), "__symsubclass__"):
+        return cls.__symsubclass__(classinfo)
+    cls = builtins.getattr(cls, "__vc_real__", cls)
+    if isinstance(classinfo, tuple):
+        classinfo = tuple(builtins.getattr(k, "__vc_real__", k) for k in classinfo)
+    else:
+        classinfo = builtins.getattr(classinfo, "__vc_real__", classinfo)
+    return builtins.issubclass(cls, classinfo)
+
+
 class EnumProxy:
     """An IntEnum class as seen from transformed code: calling it on a symbolic integer gives a
     symbolic member (the value is assumed to be in range: CHECK constraints of the schema)."""
@@ -1041,8 +1112,10 @@ class _NoLog:
 BUILTIN_OVERRIDES = dict(
     len=v_len, sorted=v_sorted, isinstance=v_isinstance, int=v_int, bool=v_bool, str=v_str,
     bytes=v_bytes, min=v_min, max=v_max, any=v_any, all=v_all, dict=v_dict, set=v_set, list=v_list,
-    print=v_print,
+    print=v_print, getattr=v_getattr, issubclass=v_issubclass,
 )
+v_type.__vc_real__ = type
+BUILTIN_OVERRIDES["type"] = v_type
 for _k, _real in (("int", int), ("bool", bool), ("str", str), ("bytes", bytes), ("dict", dict),
                   ("set", set), ("list", list)):
     BUILTIN_OVERRIDES[_k].__vc_real__ = _real
